@@ -971,14 +971,25 @@ def order_value(e, ranks, syms):
         if a is None or b is None or a not in ranks or b not in ranks:
             return None
         lo = e[1].endswith(('min', 'minimum'))
+        if ranks[a] is None or ranks[b] is None:
+            # a rank of None is NaN.  Python's min / max keep their first argument unless a later one compares strictly smaller /
+            # greater (never true against NaN); numpy's minimum / maximum / clip propagate NaN
+            if e[1].startswith('py.'):
+                return a
+            return a if ranks[a] is None else b
         if ranks[a] == ranks[b]:
             return a
         return (a if ranks[a] < ranks[b] else b) if lo else (a if ranks[a] > ranks[b] else b)
+    if e[0] == 'call' and e[1] == 'isnan' and len(e[2]) == 1:
+        a = order_value(e[2][0], ranks, syms)
+        return (ranks[a] is None) if a in ranks else None
     if e[0] == 'cmp':
         a, b = order_value(e[2], ranks, syms), order_value(e[3], ranks, syms)
         if a not in ranks or b not in ranks:
             return None
         ra, rb = ranks[a], ranks[b]
+        if ra is None or rb is None:
+            return e[1] == '!='
         return {"<": ra < rb, "<=": ra <= rb, ">": ra > rb, ">=": ra >= rb, "==": ra == rb, "!=": ra != rb}[e[1]]
     if e[0] == 'where':
         c = order_value(e[1], ranks, syms)
